@@ -348,7 +348,14 @@ func prepareCorrectionOptions(o *CorrectionOptions, opts ...schema.Option) error
 
 	// Copy over the stamps from the previous header
 	if o.Head != nil && len(o.Head.Stamps) > 0 {
-		o.Stamps = append(o.Stamps, o.Head.Stamps...)
+		for _, s := range o.Head.Stamps {
+			if s != nil {
+				// copy: the options (and the raw JSON read into them below) and the
+				// correction's preceding row must not share data with the source header
+				cp := *s
+				o.Stamps = append(o.Stamps, &cp)
+			}
+		}
 	}
 
 	// If we have a raw json object, this will override any of the other options
